@@ -3,7 +3,7 @@
    generated struct type (model decode = ReadFrom, model encode(decode) = WriteTo, byte-exact). *)
 From Coq Require Import List NArith ZArith Sorted.
 From TarsV Require Import Base.Hex Codec.Wire Codec.Skip Codec.SkipProofs Codec.Prim Codec.PrimProofs Codec.GenCodec Codec.Corr Codec.GenProofs
-  Codec.RoundTrip Codec.RoundTripProofs Codec.NormProofs Codec.WireSpec Codec.WireSpecProofs Codec.RoundTripExamples Codec.CanonProofs Codec.TypedProofs Codec.DeepConfProofs Codec.CanonExamples Codec.CorrT Gen.Schemas.
+  Codec.RoundTrip Codec.RoundTripProofs Codec.NormProofs Codec.WireSpec Codec.WireSpecProofs Codec.RoundTripExamples Codec.CanonProofs Codec.TypedProofs Codec.DeepConfProofs Codec.RefDecoder Codec.RefDecoderProofs Codec.CanonExamples Codec.CorrT Gen.Schemas.
 Import ListNotations.
 Open Scope N_scope.
 
@@ -114,6 +114,26 @@ Proof. exact DeepConfProofs.wire_tconf. Qed.
 Theorem C03_wire_conformance_deep : forall e sid vs, has_type e (TStruct sid) (VStruct vs) ->
   sconf e (fields_of e sid) (wire_fields e vs (fields_of e sid)).
 Proof. exact DeepConfProofs.wire_fields_sconf. Qed.
+(* THE INDEPENDENT REFERENCE DECODER of the property's second sentence (Codec/RefDecoder.v: unwire). It is
+   schema-directed, works on wire trees - not on bytes - and shares nothing with the model of the generated decoder
+   (no cursor, no seeking or skipping): integers are whatever width the field has, members are matched by declared
+   tag, a missing optional member gets its declared default (else the zero value), a missing required member, an
+   undeclared tag or a wire type of another kind is refused. For every wf_schema environment, struct type and
+   well-typed value: the bytes WriteTo produces are the serialisation of a wire tree that the reference decoder
+   maps back to the same value (its normal form). *)
+Theorem C03_reference_decoder : forall e k sid vs, wf_schema k e -> has_type e (TStruct sid) (VStruct vs) ->
+  let fs := wire_fields e vs (fields_of e sid) in
+  encode e sid (VStruct vs) = ser_fields fs /\
+  unwire (need (VStruct vs)) e (TStruct sid) (WStruct fs) = Some (norm_struct e sid (VStruct vs)).
+Proof. exact RefDecoderProofs.reference_decoder. Qed.
+Theorem C03_reference_decoder_refuses :
+  let e := [[ {| ftag := 0; freq := true; fty := TI32; fdef := None |}; {| ftag := 2; freq := false; fty := TStr; fdef := None |} ]] in
+  unwire 5 e (TStruct 0) (WStruct [(0, WByte 5); (2, WStr1 [97])]) = Some (VStruct [VInt 5; VStr [97]]) /\
+  unwire 5 e (TStruct 0) (WStruct [(0, WByte 5)]) = Some (VStruct [VInt 5; VStr []]) /\
+  unwire 5 e (TStruct 0) (WStruct [(2, WStr1 [97])]) = None /\
+  unwire 5 e (TStruct 0) (WStruct [(0, WByte 5); (1, WByte 1)]) = None /\
+  unwire 5 e (TStruct 0) (WStruct [(0, WByte 5); (2, WByte 1)]) = None.
+Proof. exact RefDecoderProofs.reference_decoder_refuses. Qed.
 (* every member and element, at any depth: the bytes are the serialised wire tree of the value, or nothing when the
    member is optional and left out *)
 Theorem C03_wire_member : forall e n, (forall tag req t d v, has_type e t v -> (need v <= n)%nat ->
@@ -223,6 +243,8 @@ Print Assumptions C03_code_schemas_covered.
 Print Assumptions C03_wire_conformance.
 Print Assumptions C03_wire_tree_conforms.
 Print Assumptions C03_wire_conformance_deep.
+Print Assumptions C03_reference_decoder.
+Print Assumptions C03_reference_decoder_refuses.
 Print Assumptions C03_wire_member.
 Print Assumptions C03_int_narrowest.
 Print Assumptions C03_wire_admissible.
